@@ -113,7 +113,7 @@ tvars == <<l, nvars, vt, flat, compress, semantic, node, nden, root, den, canon,
 Init == /\ l = 2 /\ nvars = 0 /\ vt = << >> /\ flat = << >> /\ compress = TRUE /\ semantic = FALSE /\ node = << >> /\ nden = << >>
         /\ root = << >> /\ den = << >> /\ canon = << >> /\ contents = {} /\ hashes = << >>
 Step == /\ l <= Len(Rec) /\ l' = l + 1
-        /\ "panic" \notin DOMAIN Rec[l]
+        /\ "panic" \notin DOMAIN Rec[l] /\ "inexact" \notin DOMAIN Rec[l]
         /\ EventOK(Rec[l])
         /\ UNCHANGED <<nvars, vt, flat, compress, semantic, node, nden, root, den, canon, contents, hashes>>
 Spec == Init /\ [][Step]_tvars
